@@ -26,7 +26,7 @@ ALL_MODULES = ["_MD2", "_MD4", "_MD5", "_SHA1", "_SHA224", "_SHA256", "_SHA384",
                "_curve25519", "_curve448", "_ed25519", "_ed448", "_modexp"]
 
 GROUPS = ["hash_md", "hash_sha2", "hash_keccak", "hash_blake_poly", "block_aes", "block_aes_aead", "block_legacy", "block_legacy2",
-          "stream", "kdf_misc", "ec_ws", "ec_edmont", "modexp", "lifecycle", "mixed_curve"]
+          "stream", "kdf_misc", "ec_ws", "ec_edmont", "modexp", "lifecycle", "mixed_curve", "params", "wide_views"]
 
 
 def plan(tier, seed):
@@ -78,7 +78,8 @@ def finalize(agg, tier):
     for m in ALL_MODULES:
         if not c.get("module_loaded_asan:" + m):
             out.append("extension module %s was never loaded in a sanitised child" % m)
-    for n in ("native_ops", "guard_buffers", "inplace_ops", "python_exceptions_for_bad_lengths", "lifecycle_steps", "asan_children"):
+    for n in ("native_ops", "guard_buffers", "inplace_ops", "python_exceptions_for_bad_lengths", "lifecycle_steps", "asan_children",
+              "param_rounds", "wide_view_ops"):
         if not c.get(n):
             out.append("deciding counter %s is zero" % n)
     return out
@@ -510,6 +511,206 @@ def g_stream(env, spec):
                     strxor.strxor_c(a_, rng.randrange(256), output=env.out(n) if rng.random() < 0.5 else None)
             env.op("strxor", n, x)
         first = False
+
+
+def g_params(env, spec):
+    """Constructor PARAMETERS at and beyond their documented limits (key, IV, nonce, segment, tag, digest, counter and salt
+    lengths; cost parameters): "unsupported lengths are reported as Python exceptions, not as crashes or silent out-of-bounds
+    access".  Whatever is accepted is used for a short encryption / digest so that a bad size reaches the native code."""
+    import importlib
+    from Crypto.Util import Counter
+    rng = env.rng
+    ctx = env.ctx
+    blocks = {n: importlib.import_module("Crypto.Cipher." + n) for n in ("AES", "DES", "DES3", "Blowfish", "CAST", "ARC2")}
+    legal_key = {"AES": 16, "DES": 8, "DES3": 24, "Blowfish": 16, "CAST": 16, "ARC2": 16}
+
+    def key_for(name, n=None):
+        k = env.data(legal_key[name] if n is None else n)
+        if name == "DES3" and len(k) in (16, 24):
+            try:
+                k = blocks[name].adjust_key_parity(k)
+            except ValueError:
+                k = bytes(range(1, len(k) + 1))
+        return k
+
+    def use(c, n=40):
+        d = env.data(n)
+        try:
+            c.encrypt(env.present(d))
+        except AttributeError:
+            c.update(env.present(d))
+        for meth in ("digest",):
+            if hasattr(c, meth):
+                getattr(c, meth)()
+
+    rounds = 0
+    while rounds == 0 or not ctx.expired():
+        rounds += 1
+        for name, M in blocks.items():
+            bs = M.block_size
+            # segment sizes: every multiple of 8 bits up to 4 blocks, and values that are not a multiple of 8
+            for seg in list(range(8, 8 * 4 * bs + 1, 8)) + [0, 1, 7, 9, 4 * bs, 1024, 1 << 16]:
+                env.op("param:%s:CFB:segment_size" % name, seg,
+                       lambda: use(M.new(key_for(name), M.MODE_CFB, iv=env.data(bs), segment_size=seg), rng.choice([1, seg // 8 or 1, 40, 100])))
+            for ivlen in list(range(0, 2 * bs + 3)) + [64, 255]:
+                for mode in ("CBC", "CFB", "OFB", "OPENPGP"):
+                    env.op("param:%s:%s:iv_len" % (name, mode), ivlen,
+                           lambda: use(M.new(key_for(name), getattr(M, "MODE_" + mode), iv=env.present(env.data(ivlen))), 2 * bs))
+            for klen in list(range(0, 66)) + [128, 129, 255, 256, 257]:
+                mode = rng.choice(["ECB", "CBC", "CTR", "EAX"])
+                kw = {"iv": env.data(bs)} if mode == "CBC" else {"nonce": env.data(bs // 2)} if mode in ("CTR", "EAX") else {}
+                env.op("param:%s:key_len" % name, klen, lambda: use(M.new(env.present(key_for(name, klen)), getattr(M, "MODE_" + mode), **kw), 2 * bs))
+            for nlen in list(range(0, 2 * bs + 3)) + [64]:
+                env.op("param:%s:CTR:nonce_len" % name, nlen, lambda: use(M.new(key_for(name), M.MODE_CTR, nonce=env.data(nlen))))
+                env.op("param:%s:EAX:nonce_len" % name, nlen, lambda: use(M.new(key_for(name), M.MODE_EAX, nonce=env.data(nlen), mac_len=rng.randint(0, bs + 2))))
+            for w in (0, 1, 7, 8, 9, 16, 8 * bs - 8, 8 * bs, 8 * bs + 8, 256):
+                def ctr():
+                    c = Counter.new(w, prefix=env.data(max(0, bs - (w + 7) // 8)), initial_value=rng.choice([0, 1, (1 << max(w, 1)) - 1]),
+                                    little_endian=rng.random() < 0.5)
+                    use(M.new(key_for(name), M.MODE_CTR, counter=c), 5 * bs)
+                env.op("param:%s:CTR:counter_bits" % name, w, ctr)
+        A = blocks["AES"]
+        for mode, nonces in (("GCM", list(range(0, 34)) + [64, 255, 1024]), ("CCM", range(0, 20)), ("OCB", range(0, 20)), ("SIV", list(range(0, 20)) + [64])):
+            for nlen in nonces:
+                for mac in (0, 1, 3, 4, 8, 12, 15, 16, 17, 32):
+                    def aead():
+                        kw = {"mac_len": mac} if mode != "SIV" else {}
+                        c = A.new(env.data(64 if mode == "SIV" else 16), getattr(A, "MODE_" + mode), nonce=env.present(env.data(nlen)), **kw)
+                        c.update(env.data(13))
+                        if mode == "SIV":
+                            c.encrypt_and_digest(env.data(33))
+                        else:
+                            c.encrypt(env.data(33))
+                            c.digest()
+                    env.op("param:AES:%s:nonce_len,mac_len" % mode, nlen * 100 + mac, aead)
+        for ml, al in ((0, 0), (1, 0), (33, 13), (32, 13), (34, 12), (1 << 16, 0), (33, 1 << 16)):
+            def ccm():
+                c = A.new(env.data(16), A.MODE_CCM, nonce=env.data(rng.choice([7, 11, 13])), msg_len=ml, assoc_len=al)
+                c.update(env.data(13))
+                c.encrypt(env.data(33))
+                c.digest()
+            env.op("param:AES:CCM:declared-lengths", ml * 7 + al, ccm)
+        for ekl in list(range(0, 140, 7)) + [40, 127, 128, 129, 1023, 1024, 1025, 4096]:
+            env.op("param:ARC2:effective_keylen", ekl, lambda: use(blocks["ARC2"].new(env.data(16), blocks["ARC2"].MODE_ECB, effective_keylen=ekl), 16))
+        from Crypto.Cipher import ChaCha20, Salsa20, ARC4, ChaCha20_Poly1305
+        for klen in list(range(0, 70)) + [256, 257, 1024]:
+            env.op("param:ChaCha20:key_len", klen, lambda: use(ChaCha20.new(key=env.present(env.data(klen)), nonce=env.data(12))))
+            env.op("param:Salsa20:key_len", klen, lambda: use(Salsa20.new(key=env.present(env.data(klen)), nonce=env.data(8))))
+            env.op("param:ARC4:key_len", klen, lambda: use(ARC4.new(env.present(env.data(klen)))))
+        for nlen in range(0, 40):
+            env.op("param:ChaCha20:nonce_len", nlen, lambda: use(ChaCha20.new(key=env.data(32), nonce=env.present(env.data(nlen)))))
+            env.op("param:Salsa20:nonce_len", nlen, lambda: use(Salsa20.new(key=env.data(32), nonce=env.present(env.data(nlen)))))
+
+            def ccp():
+                c = ChaCha20_Poly1305.new(key=env.data(32), nonce=env.present(env.data(nlen)))
+                c.update(env.data(5))
+                c.encrypt(env.data(70))
+                c.digest()
+            env.op("param:ChaCha20_Poly1305:nonce_len", nlen, ccp)
+        from Crypto.Hash import BLAKE2b, BLAKE2s, SHAKE128, cSHAKE256, KMAC128, KMAC256, TupleHash128, keccak, SHA512, Poly1305, CMAC, \
+            KangarooTwelve, TurboSHAKE128, HMAC, SHA256
+        for B, mx in ((BLAKE2b, 64), (BLAKE2s, 32)):
+            for db in list(range(0, mx + 4)) + [128, 255]:
+                env.op("param:%s:digest_bytes" % B.__name__.split(".")[-1], db, lambda: B.new(digest_bytes=db, data=env.data(70)).digest())
+                env.op("param:%s:key_len" % B.__name__.split(".")[-1], db,
+                       lambda: B.new(digest_bytes=mx, key=env.present(env.data(db)), data=env.data(70)).digest())
+            for bits in (0, 1, 7, 8, 9, 159, 160, 161, 8 * mx, 8 * mx + 8):
+                env.op("param:%s:digest_bits" % B.__name__.split(".")[-1], bits, lambda: B.new(digest_bits=bits, data=env.data(3)).digest())
+        for n in (0, 1, 135, 136, 137, 167, 168, 169, 1000, 70000):
+            env.op("param:SHAKE128:read", n, lambda: SHAKE128.new(env.data(5)).read(n))
+            env.op("param:cSHAKE256:custom_len", n, lambda: cSHAKE256.new(data=env.data(5), custom=env.data(n)).read(40))
+            env.op("param:KangarooTwelve:custom_len", n, lambda: KangarooTwelve.new(data=env.data(5), custom=env.data(n)).read(40))
+            env.op("param:KMAC128:mac_len", n, lambda: KMAC128.new(key=env.data(32), mac_len=n, data=env.data(9)).digest())
+            env.op("param:KMAC256:key_len", n, lambda: KMAC256.new(key=env.data(n), mac_len=64, data=env.data(9)).digest())
+            env.op("param:TupleHash128:digest_bytes", n, lambda: TupleHash128.new(digest_bytes=n).update(env.data(9)).digest())
+            env.op("param:HMAC:key_len", n, lambda: HMAC.new(env.present(env.data(n)), env.data(9), SHA256).digest())
+        for bits in (0, 8, 224, 256, 384, 512, 520, 1600, 1608):
+            env.op("param:keccak:digest_bits", bits, lambda: keccak.new(digest_bits=bits, data=env.data(70)).digest())
+        for dom in (0, 1, 0x1F, 0x7F, 0x80, 0xFF, 256):
+            env.op("param:TurboSHAKE128:domain", dom, lambda: TurboSHAKE128.new(domain=dom, data=env.data(70)).read(40))
+        for t in ("224", "256", "225", "", None, "512"):
+            env.op("param:SHA512:truncate", 0, lambda: SHA512.new(env.data(70), truncate=t).digest())
+        for klen in range(0, 40):
+            env.op("param:Poly1305:key_len", klen, lambda: Poly1305.new(key=env.data(klen), cipher=A, nonce=env.data(16), data=env.data(9)).digest())
+            env.op("param:Poly1305:nonce_len", klen, lambda: Poly1305.new(key=env.data(32), cipher=rng.choice([A, ChaCha20]), nonce=env.data(klen), data=env.data(9)).digest())
+            env.op("param:CMAC:key_len,mac_len", klen, lambda: CMAC.new(env.data(rng.choice([16, 24, 32, klen])), env.data(9), ciphermod=A, mac_len=klen).digest())
+        from Crypto.Protocol import KDF
+        for N, r_, p_ in ((0, 1, 1), (1, 1, 1), (2, 1, 1), (3, 1, 1), (16, 0, 1), (16, 1, 0), (16, 3, 2), (1 << 20, 1 << 12, 1), (16, 1, 1 << 30)):
+            env.op("param:scrypt:N,r,p", N, lambda: KDF.scrypt(env.data(8), env.data(8), 16, N=N, r=r_, p=p_))
+        for n in (0, 1, 15, 16, 17, 71, 72, 73, 200):
+            env.op("param:bcrypt:salt_len", n, lambda: KDF.bcrypt(b"password", 4, salt=env.data(n)))
+            env.op("param:bcrypt:password_len", n, lambda: KDF.bcrypt(bytes([65]) * n, 4, salt=env.data(16)))
+            if n:       # (the private module loops for ever on an empty key; bcrypt() never passes one)
+                env.op("param:_EKSBlowfish:key_len", n, lambda: importlib.import_module("Crypto.Cipher._EKSBlowfish").new(
+                    bytes([65]) * n, 1, env.data(16), 4, False).encrypt(env.data(24)))
+            env.op("param:PBKDF2:dkLen", n, lambda: KDF.PBKDF2(env.data(8), env.data(8), n, count=2))
+            env.op("param:HKDF:key_len", n, lambda: KDF.HKDF(env.data(8), n, env.data(8), SHA256))
+        for cost in (0, 3, 4, 5, 32, 100):
+            env.op("param:bcrypt:cost", cost, lambda: KDF.bcrypt(b"pw", cost, salt=env.data(16)))
+        ctx.count("param_rounds")
+
+
+def g_wide_views(env, spec):
+    """Inputs presented as memoryviews whose ITEMS are wider than a byte (array('H'/'I'/'Q'), cast views): len() counts
+    items, nbytes counts bytes.  Whichever of the two an entry point uses, it must stay inside the buffers it was given; the
+    output buffers are guard-page or red-zone buffers sized by item count and by byte count."""
+    import array
+    import importlib
+    rng = env.rng
+    ctx = env.ctx
+    from Crypto.Cipher import AES, ChaCha20, Salsa20, ARC4, ChaCha20_Poly1305, DES3
+    from Crypto.Hash import SHA256, SHA1, BLAKE2b, SHAKE128, HMAC, CMAC, Poly1305, KMAC128
+    from Crypto.Util import strxor
+
+    def wide(n_items, code):
+        a = array.array(code, [0] * n_items)
+        raw = env.data(n_items * a.itemsize)
+        mv = memoryview(a)
+        mv.cast("B")[:] = raw
+        return mv
+
+    while True:
+        for n in [0, 1, 2, 3, 7, 8, 15, 16, 17, 31, 32, 33, 63, 64, 65, 100, 255, 256, 1000]:
+            for code in ("H", "I", "Q"):
+                isz = array.array(code).itemsize
+                makers = [
+                    ("ChaCha20", lambda: ChaCha20.new(key=env.data(32), nonce=env.data(12))),
+                    ("XChaCha20", lambda: ChaCha20.new(key=env.data(32), nonce=env.data(24))),
+                    ("Salsa20", lambda: Salsa20.new(key=env.data(32), nonce=env.data(8))),
+                    ("ARC4", lambda: ARC4.new(env.data(16))),
+                    ("AES-CTR", lambda: AES.new(env.data(16), AES.MODE_CTR, nonce=env.data(8))),
+                    ("AES-CFB", lambda: AES.new(env.data(16), AES.MODE_CFB, iv=env.data(16))),
+                    ("AES-OFB", lambda: AES.new(env.data(16), AES.MODE_OFB, iv=env.data(16))),
+                    ("AES-CBC", lambda: AES.new(env.data(16), AES.MODE_CBC, iv=env.data(16))),
+                    ("AES-ECB", lambda: AES.new(env.data(16), AES.MODE_ECB)),
+                    ("AES-GCM", lambda: AES.new(env.data(16), AES.MODE_GCM, nonce=env.data(12))),
+                    ("AES-EAX", lambda: AES.new(env.data(16), AES.MODE_EAX, nonce=env.data(12))),
+                    ("AES-CCM", lambda: AES.new(env.data(16), AES.MODE_CCM, nonce=env.data(12))),
+                    ("ChaCha20-Poly1305", lambda: ChaCha20_Poly1305.new(key=env.data(32), nonce=env.data(12))),
+                ]
+                for cname, mk in makers:
+                    for outsize in ("items", "bytes", "none"):
+                        def f():
+                            c = mk()
+                            meth = c.decrypt if rng.random() < 0.4 else c.encrypt
+                            inp = wide(n, code)
+                            if outsize == "none":
+                                meth(inp)
+                            else:
+                                meth(inp, output=env.out(n if outsize == "items" else n * isz))
+                        env.op("wide:%s:%s:out=%s" % (cname, code, outsize), n, f)
+                for hname, hf in (("SHA256", lambda v: SHA256.new(v).digest()), ("SHA1", lambda v: SHA1.new().update(v)),
+                                  ("BLAKE2b", lambda v: BLAKE2b.new(data=v).digest()), ("SHAKE128", lambda v: SHAKE128.new(v).read(9)),
+                                  ("HMAC", lambda v: HMAC.new(b"k", v, SHA256).digest()), ("CMAC", lambda v: CMAC.new(bytes(16), v, ciphermod=AES).digest()),
+                                  ("Poly1305", lambda v: Poly1305.new(key=bytes(32), cipher=ChaCha20, data=v).digest()),
+                                  ("KMAC128", lambda v: KMAC128.new(key=bytes(16), data=v, mac_len=16).digest())):
+                    env.op("wide:%s:%s" % (hname, code), n, lambda: hf(wide(n, code)))
+                env.op("wide:strxor:%s" % code, n, lambda: strxor.strxor(wide(n, code), wide(n, code), output=env.out(rng.choice([n, n * isz]))))
+                env.op("wide:strxor_c:%s" % code, n, lambda: strxor.strxor_c(wide(n, code), 7, output=env.out(rng.choice([n, n * isz]))))
+                ctx.count("wide_view_ops")
+        if ctx.expired():
+            break
+
 
 
 def g_kdf_misc(env, spec):
